@@ -2561,6 +2561,18 @@ def tbl_order : (List (List (List Nat))) :=
 def const_header : List Nat :=
   ([67, 86, 83, 83, 58, 52, 46, 48] : List Nat)
 
+/-- functions containing a pre-sized buffer `make([]T, 0, cap)` (one entry per occurrence) -/
+def pkg_presized : List String :=
+  ["CVSS40.Vector"]
+
+/-- every mention of package unsafe (function or `decl`:unsafe.X, one entry per occurrence) -/
+def pkg_unsafe_all : List String :=
+  ["CVSS40.Vector:unsafe.Pointer"]
+
+/-- sha256 (first 16 hex digits) of each verification hooks file -/
+def hook_sha : List String :=
+  ["zz_verif_hooks.go:798c5105abf108ec"]
+
 /-- import paths of the package's source files (alias=path when renamed) -/
 def pkg_imports : List String :=
   ["errors", "fmt", "math", "strings", "unsafe"]
